@@ -54,7 +54,7 @@ func (s *svcScenario) open(ci, ki int) *bed.DT {
 	if d == nil {
 		return nil
 	}
-	if len(cl.DTs) == 1 {
+	if len(cl.DTs) == 1 && !cl.SDK {
 		if err := cl.Register(); err != nil {
 			w.c.Step("register failed: %v", err)
 		}
@@ -123,7 +123,7 @@ func (s *svcScenario) step() (string, string) {
 	return "", ""
 }
 
-func newSvcScenario(c *core.Case, maxCli int) (*svcScenario, error) {
+func newSvcScenario(c *core.Case, maxCli int, sdk bool) (*svcScenario, error) {
 	w, err := newSvcWorld(c, "colA")
 	if err != nil {
 		return nil, err
@@ -133,10 +133,31 @@ func newSvcScenario(c *core.Case, maxCli int) (*svcScenario, error) {
 	if r.Intn(10) == 0 {
 		ncli = 1
 	}
+	if sdk {
+		if err := w.useSDK(); err != nil {
+			w.close()
+			return nil, err
+		}
+		if ncli > 4 {
+			ncli = 4
+		}
+	}
 	for i := 0; i < ncli; i++ {
+		if sdk {
+			cl, err := w.b.NewSDKBedClient("colA", fmt.Sprintf("c%d", i))
+			if err != nil {
+				w.close()
+				return nil, fmt.Errorf("SDK client Connect: %v", err)
+			}
+			w.cls = append(w.cls, cl)
+			continue
+		}
 		w.cls = append(w.cls, w.b.NewClient("colA", fmt.Sprintf("c%d", i)))
 	}
 	nkeys := 1 + r.Intn(3)
+	if sdk {
+		nkeys = 2 + r.Intn(2) // several datatypes per message is the point of this mode
+	}
 	for i := 0; i < nkeys; i++ {
 		w.keys = append(w.keys, svcKey{fmt.Sprintf("key%d", i), crdt.Types[r.Intn(4)]})
 	}
@@ -144,7 +165,7 @@ func newSvcScenario(c *core.Case, maxCli int) (*svcScenario, error) {
 	for ki := range w.keys {
 		s.creator[ki] = r.Intn(ncli)
 	}
-	c.Step("clients=%d keys=%v", ncli, w.keys)
+	c.Step("clients=%d keys=%v sdk=%v", ncli, w.keys, sdk)
 	return s, nil
 }
 
@@ -156,7 +177,8 @@ func verdict(c *core.Case, prefix, sig, msg string) *core.Result {
 }
 
 func runC05(c *core.Case) *core.Result {
-	s, err := newSvcScenario(c, 6)
+	sdk := c.Index%4 == 3
+	s, err := newSvcScenario(c, 6, sdk)
 	if err != nil {
 		return c.Inconclusive("test bed did not start: %v", err)
 	}
